@@ -28,7 +28,9 @@ struct SplineIO {
       return Sp(0.5 + in.unit(), V, ga);
     };
     auto* sp = new Sp(seg(make_elem<G>(in, 0)));
-    int nseg = 1 + index % 3;
+    // sizes matter: thresholds ("only for long splines") hide behind small fixtures.  Objects 4 and 5
+    // are long curves (33 and 48 segments), 0..3 short ones.
+    int nseg = index == 4 ? 32 : index == 5 ? 47 : 1 + index % 3;
     for (int i = 0; i < nseg; ++i) {
       if (i % 2 == 0) *sp += seg(smooth::Identity<G>());
       else sp->concat_global(seg(sp->end()));
@@ -64,7 +66,7 @@ struct SplineIO {
 };
 
 inline const char* const kSplineFn[] = {"eval", "eval_vel", "eval_vel_acc", "crop", "arclength", "info", "copy_concat",
-                                        "eval_many"};
+                                        "eval_many", "crop_degenerate", "arclength_many"};
 constexpr int kSplineNFn = sizeof(kSplineFn) / sizeof(kSplineFn[0]);
 
 template<int K, class G, class Tag>
@@ -138,10 +140,25 @@ struct SplineOps {
         }
         break;
       }
+      case 8:
+        // empty and out-of-range crops
+        put_spline(out, sp.crop(t, t));
+        put_spline(out, sp.crop(sp.t_max() + 1.0, sp.t_max() + 2.0));
+        put_spline(out, sp.crop(-2.0, -1.0));
+        put_spline(out, sp.crop(0.0, sp.t_max() + 5.0, false));
+        break;
+      case 9:
+        if constexpr (K == 3) {
+          In in{op.salt};
+          for (int i = 0; i < 5; ++i) put_mat(out, sp.arclength(sp.t_min() + in.unit() * (sp.t_max() - sp.t_min())));
+        } else {
+          out.tag("n/a");
+        }
+        break;
       default: out.tag("?"); break;
     }
   }
-  static constexpr OpDef def = {Tag::lie, "C", kSplineNFn, kSplineFn, 4, 12, 0, 0, &prep, &run};
+  static constexpr OpDef def = {Tag::lie, "C", kSplineNFn, kSplineFn, 6, 12, 0, 0, &prep, &run};
 };
 
 // ---- BSpline<K,G> ------------------------------------------------------------------------------
@@ -150,7 +167,7 @@ struct BSplineIO {
   using Bs = smooth::BSpline<K, G>;
   static Bs* make(In& in, int index) {
     std::vector<G> cp;
-    const int n = K + 2 + index * 2;
+    const int n = index == 3 ? 40 : K + 2 + index * 2;
     G g = make_elem<G>(in, 0);
     for (int i = 0; i < n; ++i) {
       cp.push_back(g);
@@ -228,7 +245,7 @@ struct BSplineOps {
       default: out.tag("?"); break;
     }
   }
-  static constexpr OpDef def = {Tag::lie, "C", kBSplineNFn, kBSplineFn, 3, 12, 0, 0, &prep, &run};
+  static constexpr OpDef def = {Tag::lie, "C", kBSplineNFn, kBSplineFn, 4, 12, 0, 0, &prep, &run};
 };
 
 // ---- cumulative spline kernels -------------------------------------------------------------------
